@@ -15,5 +15,5 @@ cp "$d/demo.py" $w/_demo.py
 ( cd $w && timeout 900 /venv/bin/python -m pytest -q -p no:cacheprovider --timeout=900 2>&1 | tail -1 )
 git -C /repo worktree remove --force $w
 ( cd "$R" && git apply "$d/patch.diff" ) || exit 2
-"$here/tools/run_all.sh" "$@"
+VERIF_EVIDENCE_DIR=/var/tmp/w/evidence_scratch "$here/tools/run_all.sh" "$@"
 ( cd "$R" && git checkout -- . && git status --short | head -3 )
